@@ -59,6 +59,18 @@ def generate(rng, tier):
         for sel in (0, 9, 10, 63):
             t = ["R"] + vb + ["-", "CS", str(sel)] + helper(rng, n) + R.full_rect_path(vb)
             g["stop-counts"].append("PIPE 0 0 32 32 " + " ".join(t))
+    # the same helper call again on the same Generator and destinations: after a Reset (a new graphic), and after the
+    # registers it wrote were overwritten directly
+    g["repeated-helper"] = []
+    for i in range(200 if tier == "quick" else 4000):
+        h = helper(rng, rng.choice([2, 3, 4]))
+        first = ["R"] + vb + ["-"] + h + R.full_rect_path(vb)
+        if i % 2 == 0:
+            t = first + ["NEW", "R"] + vb + ["-"] + h + R.full_rect_path(vb)
+        else:
+            clobber = ["NS", "4"] + [x for _ in range(6) for x in ("NR", "0", "1", C.fh(rng.range(-8, 8) / 4.0))] + ["NS", "0"]
+            t = first + clobber + h + R.full_rect_path(vb)
+        g["repeated-helper"].append("PIPE 0 0 32 32 " + " ".join(t))
     for _ in range(3000 if tier == "quick" else 100000):
         v = R.viewbox(rng)
         rc = R.rect(rng)
